@@ -48,8 +48,7 @@ class PBSPro(ResourceManager):
                                    'cores_per_node or $PBS_NODEFILE not set')
 
             nodes = self._parse_nodefile(os.environ['PBS_NODEFILE'],
-                                         cpn=rm_info.cores_per_node,
-                                         smt=rm_info.threads_per_core)
+                                         cpn=rm_info.cores_per_node)
 
         rm_info.node_list = self._get_node_list(nodes, rm_info)
 
